@@ -220,6 +220,28 @@ def drive_parse_and_validate(c, tier, label):
     c.exhaustive = False
 
 
+def charge_session(ev, why):
+    p = "C11" if ev.get("ev", "").endswith("auth") else "C10"
+    return [p, "C04"] if why == "panic" else [p]
+
+
+def sessions_and_validate(c, tier, which):
+    """Direction B for handles: sessions through one handle, validated by the stateful trace spec."""
+    n = 400 if tier == "quick" else 12000
+    ev = vlib.run_drive_sessions("%s-%s" % (c.pid, tier), n)
+    k, bad, results = vlib.run_trace_sessions(ev, "%s-sessions-%s" % (c.pid, tier))
+    for r in results[:1]:
+        c.add_tlc(r, "stateful trace specification of handle sessions (one of the parallel parts)")
+    for r in results[1:]:
+        c.states += r.distinct
+        c.transitions += r.generated
+    bad = [b for b in bad if which is None or b["event"].get("ev", "").endswith(which)]
+    c.add_trace(k, bad, None, "sessions of 5-40 calls through ONE handle of the real code (long multi-byte texts); the trace "
+                              "specification carries the handle's abstract state and judges every view and the final buffer",
+                charge=charge_session)
+    c.exhaustive = False
+
+
 def c04(tier):
     c = new_check("C04", tier)
     c.group_key = beh_key
@@ -232,6 +254,7 @@ def c04(tier):
     for model, cfg in cfgs("mc/MC_Paths", tier, [""]):
         mc_replay(c, model, cfg, "in-place normalisation stand-alone and inside references")
     drive_and_validate(c, tier)
+    sessions_and_validate(c, tier, None)
     return c.finish(rule="editor state graph: nodes = texts reachable within the length bound from 5 initial buffers, "
                          "edges = every mutator with every vocabulary argument; plus handle behaviours",
                     assumptions=EDIT_TRUST)
@@ -254,6 +277,7 @@ def c10(tier):
     for model, cfg in cfgs("mc/MC_Editor", tier, [""]):
         mc_replay(c, model, cfg, "single path-editing calls from every reachable text")
     drive_and_validate(c, tier, ops={"push", "pop", "clear", "sym_push", "normalize"})
+    sessions_and_validate(c, tier, "path")
     return c.finish(rule="contexts x initial paths x all sequences of push/pop/clear/symbolic_push/symbolic_append/normalize",
                     assumptions=EDIT_TRUST)
 
@@ -265,6 +289,7 @@ def c11(tier):
     for model, cfg in cfgs("mc/MC_Editor", tier, [""]):
         mc_replay(c, model, cfg, "single authority-editing calls from every reachable text")
     drive_and_validate(c, tier, ops={"set_userinfo", "set_host", "set_port"})
+    sessions_and_validate(c, tier, "auth")
     return c.finish(rule="initial references x all sequences of set_userinfo/set_host/set_port",
                     assumptions=EDIT_TRUST)
 
